@@ -908,3 +908,363 @@ Proof. intros [n [e H]]. exists e. apply check_ok_iff_file_ok. now exists n. Qed
 Theorem check_elaborates fs root trad e :
   check fs root trad = Ok e <-> exists n, file_ok n fs trad false [] root e.
 Proof. exact (check_ok_iff_file_ok fs root trad e). Qed.
+
+(* ------------------------------------------------------------------------------------ *)
+(* what a rejection cites                                                                 *)
+(* ------------------------------------------------------------------------------------ *)
+
+Definition item_line (it : item) : Z :=
+  match it with
+  | IProto l _ | IImport l _ _ | IOption l _ _ | IConst l _ _ | IAlias l _ _ | IEnum l _ _ _
+  | IMsg l _ _ _ | IField l _ _ _ | IEnumField l _ _ => l
+  end.
+
+(* [sub it0 it]: statement it0 is it or occurs (at any depth) in the body of it *)
+Inductive sub : item -> item -> Prop :=
+| sub_refl it : sub it it
+| sub_msg it0 l n x body i : In i body -> sub it0 i -> sub it0 (IMsg l n x body)
+| sub_enum it0 l n b body i : In i body -> sub it0 i -> sub it0 (IEnum l n b body).
+
+(* the first token of the statement's type is uintN / intN *)
+Definition mentions_sty (it : item) (s : sty) : Prop :=
+  match it with
+  | IField _ t _ _ | IAlias _ _ t => tyx_head t = s
+  | IEnum _ _ b _ => b = s
+  | _ => False
+  end.
+
+(* for the kinds of the numeric rules: the cited statement breaks the documented bound *)
+Definition rule_broken (k : kind) (it : item) : Prop :=
+  match k with
+  | KInvalidUintCap => exists n, mentions_sty it (SUint n) /\ ~ width_ok n
+  | KInvalidIntCap => exists n, mentions_sty it (SInt n) /\ ~ width_ok n
+  | KInvalidFieldNumber => exists l t nm num, it = IField l t nm num /\ ~ number_ok num
+  | KInvalidArrayCap => exists s c x, (exists l nm num, it = IField l (XArr s c x) nm num) \/
+                                      (exists l nm, it = IAlias l nm (XArr s c x))
+  | KEnumValueOverflow | KDupEnumValue | KInvalidEnumFieldValue => exists l nm v, it = IEnumField l nm v
+  | KDupFieldNumber => exists l t nm num, it = IField l t nm num
+  | KMessageSizeOverflows => exists l nm x body, it = IMsg l nm x body
+  | KInvalidAliasedType => exists l nm p, it = IAlias l nm (XSingle (SRef p))
+  | _ => True
+  end.
+
+Definition file_level (k : kind) : Prop :=
+  k = KIOError \/ k = KProtoNameUndefined \/ k = KImportInEnum \/ k = KDuplicatedDefinition \/ k = KFuel.
+
+Definition rule_kind_ok (k : kind) (d : def) : Prop :=
+  match k with
+  | KDupFieldNumber => exists a n t r, d = DField a n t r
+  | KEnumValueOverflow | KDupEnumValue => exists a v, d = DEnumField a v
+  | KUnsupportedOption | KInvalidOptionValue => exists a v, d = DOption a v
+  | KDuplicatedDefinition | KAliasInMessage | KConstInMessage | KAliasInEnum | KConstInEnum | KOptionInEnum
+  | KEnumInEnum | KMessageInEnum | KFieldInEnum => True
+  | _ => False
+  end.
+
+Definition member_kind_ok (k : kind) (d : def) : Prop :=
+  match k with
+  | KDupFieldNumber => exists a n t r, d = DField a n t r
+  | KEnumValueOverflow | KDupEnumValue => exists a v, d = DEnumField a v
+  | KUnsupportedOption | KInvalidOptionValue => exists a v, d = DOption a v
+  | KDuplicatedDefinition => True
+  | _ => False
+  end.
+
+Lemma member_rule_kind k d : member_kind_ok k d -> rule_kind_ok k d.
+Proof. destruct k; cbn; tauto. Qed.
+
+Section Cites.
+  Variable pc : list string -> string -> res def.
+  Variable kf : string -> bool.
+  Variable trad : bool.
+  Variable file : string.
+  Variable fstack : list string.
+  Hypothesis Hpc_proto : forall stk g d, pc stk g = Ok d -> exists f n m, d = DProto f n m.
+
+  Notation PI := (proc_item pc kf trad file fstack).
+  Notation PIS := (proc_items pc kf trad file fstack).
+
+  (* the error was produced while parsing an imported file, or is one of the file-level ones *)
+  Definition from_import (k : kind) (f : string) (l : Z) : Prop :=
+    (exists g, pc fstack g = Err k f l) \/ (l = 0 /\ file_level k).
+
+  Definition cites_here (it : item) (k : kind) (f : string) (l : Z) : Prop :=
+    exists it0, sub it0 it /\ f = file /\ l = item_line it0 /\ rule_broken k it0.
+
+  Lemma validate_err cur nm d k f l :
+    validate_on_push cur nm d = Err k f l ->
+    f = lfile (def_loc d) /\ l = lline (def_loc d) /\ member_kind_ok k d.
+  Proof.
+    intros E. unfold validate_on_push, validate_option in E.
+    repeat match type of E with
+           | match ?x with _ => _ end = _ => destruct x
+           | (if ?c then _ else _) = _ => destruct c
+           end; inversion E; subst; cbn [member_kind_ok]; repeat split; eauto.
+  Qed.
+
+  Lemma push_member_err cur nm d k f l :
+    push_member cur nm d = Err k f l ->
+    f = lfile (def_loc d) /\ l = lline (def_loc d) /\ member_kind_ok k d.
+  Proof.
+    unfold push_member. destruct (has_name nm (fmem cur)).
+    { intros H; inversion H; subst. cbn. now repeat split. }
+    destruct (validate_on_push cur nm d) as [[]|k0 a0 b0] eqn:E; cbn [bind]; [discriminate|].
+    intros H; inversion H; subst. now apply validate_err in E.
+  Qed.
+
+  Lemma push_then_err cur ik nm d k f l :
+    push_then cur ik nm d = Err k f l ->
+    f = lfile (def_loc d) /\ l = lline (def_loc d) /\ rule_kind_ok k d.
+  Proof.
+    unfold push_then. destruct (push_member cur nm d) as [f'|k0 a0 b0] eqn:E; cbn [bind].
+    - destruct (unsupported cur ik (def_loc d)) as [[]|k1 a1 b1] eqn:E2; cbn [bind]; [discriminate|].
+      intros H; inversion H; subst. unfold unsupported in E2.
+      destruct (fk cur), ik; inversion E2; subst; cbn; now repeat split.
+    - intros H; inversion H; subst. apply push_member_err in E. destruct E as [E1 [E2 E3]].
+      repeat split; try assumption. now apply member_rule_kind.
+  Qed.
+
+  Lemma resolve_sty_err st l s k f l' :
+    resolve_sty file st l s = Err k f l' ->
+    f = file /\ l' = l /\
+    ((k = KInvalidUintCap /\ exists n, s = SUint n /\ ~ width_ok n) \/
+     (k = KInvalidIntCap /\ exists n, s = SInt n /\ ~ width_ok n) \/
+     k = KRefTypeNotDefined \/ k = KRefNotType).
+  Proof.
+    destruct s as [| |n|n|p]; cbn [resolve_sty]; try discriminate.
+    - destruct (GenFront.uint_cap_raises n) eqn:E; [|discriminate]. intros H; inversion H; subst.
+      repeat split. left. split; [reflexivity|]. exists n. split; [reflexivity|].
+      intros Hw. apply uint_cap_bridge in Hw. congruence.
+    - destruct (GenFront.int_cap_raises n) eqn:E; [|discriminate]. intros H; inversion H; subst.
+      repeat split. right; left. split; [reflexivity|]. exists n. split; [reflexivity|].
+      intros Hw. apply int_cap_bridge in Hw. congruence.
+    - unfold resolve_type_ref. destruct (lookup st p) as [d|]; [destruct (def_type d)|]; try discriminate;
+        intros H; inversion H; subst; repeat split; tauto.
+  Qed.
+
+  Lemma resolve_const_err st l p k f l' :
+    resolve_const_ref file st l p = Err k f l' ->
+    f = file /\ l' = l /\ (k = KRefConstNotDefined \/ k = KRefNotConst).
+  Proof.
+    unfold resolve_const_ref. destruct (lookup st p) as [d|]; [destruct (def_const d)|]; try discriminate;
+      intros H; inversion H; subst; repeat split; tauto.
+  Qed.
+
+  Lemma resolve_tyx_err st l t k f l' :
+    resolve_tyx file trad st l t = Err k f l' ->
+    f = file /\ l' = l /\
+    ((k = KInvalidUintCap /\ exists n, tyx_head t = SUint n /\ ~ width_ok n) \/
+     (k = KInvalidIntCap /\ exists n, tyx_head t = SInt n /\ ~ width_ok n) \/
+     (k = KInvalidArrayCap /\ exists s c x, t = XArr s c x) \/
+     k = KRefTypeNotDefined \/ k = KRefNotType \/ k = KRefConstNotDefined \/ k = KRefNotConst \/
+     k = KExtensibleInTraditional).
+  Proof.
+    destruct t as [s|s c ext]; cbn [resolve_tyx tyx_head].
+    - intros H. apply resolve_sty_err in H. destruct H as [-> [-> H]]. repeat split. tauto.
+    - destruct (resolve_sty file st l s) as [er|k0 a0 b0] eqn:Es; cbn [bind].
+      2:{ intros H; inversion H; subst. apply resolve_sty_err in Es. destruct Es as [-> [-> Es]]. repeat split. tauto. }
+      destruct (resolve_cap file st l c) as [n|k0 a0 b0] eqn:Ec; cbn [bind].
+      2:{ intros H; inversion H; subst. destruct c as [z|p]; cbn [resolve_cap] in Ec; [discriminate|].
+          destruct (resolve_const_ref file st l p) as [v|k1 a1 b1] eqn:Er; cbn [bind] in Ec.
+          - destruct v; inversion Ec; subst; repeat split; right; right; left; split; eauto.
+          - inversion Ec; subst. apply resolve_const_err in Er. destruct Er as [-> [-> Er]]. repeat split. tauto. }
+      destruct (ext && trad); [intros H; inversion H; subst; repeat split; tauto|].
+      destruct (GenFront.array_cap_raises n); [|discriminate].
+      intros H; inversion H; subst. repeat split. right; right; left. split; eauto.
+  Qed.
+
+  Lemma eval_cexpr_err st l e k f l' :
+    eval_cexpr file st l e = Err k f l' ->
+    f = file /\ l' = l /\ (k = KRefConstNotDefined \/ k = KRefNotConst \/ k = KCalcExpr \/ k = KZeroDivCrash).
+  Proof.
+    induction e as [z|p|a IHa b IHb|a IHa b IHb|a IHa b IHb|a IHa b IHb]; cbn [eval_cexpr]; try discriminate.
+    - destruct (resolve_const_ref file st l p) as [v|k1 a1 b1] eqn:Er; cbn [bind].
+      + destruct v; intros H; inversion H; subst; repeat split; tauto.
+      + intros H; inversion H; subst. apply resolve_const_err in Er. tauto.
+    - destruct (eval_cexpr file st l a); cbn [bind]; [|exact IHa].
+      destruct (eval_cexpr file st l b); cbn [bind]; [discriminate|exact IHb].
+    - destruct (eval_cexpr file st l a); cbn [bind]; [|exact IHa].
+      destruct (eval_cexpr file st l b); cbn [bind]; [discriminate|exact IHb].
+    - destruct (eval_cexpr file st l a); cbn [bind]; [|exact IHa].
+      destruct (eval_cexpr file st l b); cbn [bind]; [discriminate|exact IHb].
+    - destruct (eval_cexpr file st l a); cbn [bind]; [|exact IHa].
+      destruct (eval_cexpr file st l b) as [y|]; cbn [bind]; [|exact IHb].
+      destruct (y =? 0); [|discriminate]. intros H; inversion H; subst; repeat split; tauto.
+  Qed.
+
+  Ltac mine := right; eexists; split; [apply sub_refl|]; split; [reflexivity|]; split; [reflexivity|].
+  Ltac solve_rb k :=
+    destruct k; cbn [rule_broken rule_kind_ok mentions_sty] in *; try exact I; try contradiction;
+    try (repeat match goal with H : exists _, _ |- _ => destruct H end; discriminate); eauto 12.
+
+  Lemma body_error st body : forall f0 k f l,
+    Forall (fun i => forall outer cur k f l, PI outer cur i = Err k f l ->
+                                             from_import k f l \/ cites_here i k f l) body ->
+    PIS st f0 body = Err k f l ->
+    from_import k f l \/ exists i it0, In i body /\ sub it0 i /\ f = file /\ l = item_line it0 /\ rule_broken k it0.
+  Proof.
+    induction body as [|i r IHr]; intros f0 k f l HF H; [discriminate|].
+    inversion HF as [|? ? Hi Hr]; subst. cbn [proc_items] in H.
+    destruct (PI st f0 i) as [fm|k0 a0 b0] eqn:Ei; cbn [bind] in H.
+    - destruct (IHr fm k f l Hr H) as [Hc|[i' [it0 [Hin Hrest]]]]; [now left|].
+      right. exists i', it0. split; [now right|exact Hrest].
+    - inversion H; subst. destruct (Hi _ _ _ _ _ Ei) as [Hc|[it0 [Hs Hrest]]]; [now left|].
+      right. exists i, it0. split; [now left|]. now split.
+  Qed.
+
+  Theorem proc_item_error_cites : forall it outer cur k f l,
+    PI outer cur it = Err k f l -> from_import k f l \/ cites_here it k f l.
+  Proof.
+    induction it as [l0 nm|l0 a g|l0 nm v|l0 nm v|l0 nm t|l0 nm b body IH|l0 nm x body IH|l0 t nm num|l0 nm v]
+      using item_ind'; intros outer cur k f l H.
+    - (* proto *)
+      cbn [proc_item] in H. destruct (fk cur); inversion H; subst; mine; exact I.
+    - (* import *)
+      cbn [proc_item] in H.
+      destruct (negb (kf g)). { inversion H; subst. left. right. split; [reflexivity|]. unfold file_level. tauto. }
+      destruct (mem_s g fstack). { inversion H; subst. mine. exact I. }
+      destruct (mem_s g (imported_files _)). { inversion H; subst. mine. exact I. }
+      destruct (pc fstack g) as [child|k0 a0 b0] eqn:Ep; cbn [bind] in H.
+      2:{ inversion H; subst. left. left. now exists g. }
+      destruct (Hpc_proto _ _ _ Ep) as [cf [cn [cm ->]]].
+      match type of H with (if has_name ?n _ then _ else _) = _ => set (name := n) in * end.
+      destruct (has_name name _). { inversion H; subst. mine. exact I. }
+      destruct (push_member cur name (DProto cf cn cm)) as [f'|k0 a0 b0] eqn:Em; cbn [bind] in H.
+      + destruct (fk cur); inversion H; subst.
+        * mine. exact I.
+        * left. right. split; [reflexivity|]. unfold file_level. tauto.
+      + inversion H; subst. apply push_member_err in Em. cbn [def_loc lfile lline] in Em.
+        destruct Em as [-> [-> Hk]]. left. right. split; [reflexivity|].
+        unfold file_level. destruct k; cbn [member_kind_ok] in Hk; try contradiction;
+          try (repeat match goal with H : exists _, _ |- _ => destruct H end; discriminate); tauto.
+    - (* option *)
+      cbn [proc_item] in H. destruct v as [cv|p]; cbn [eval_optx bind] in H.
+      + apply push_then_err in H. cbn [def_loc lfile lline] in H. destruct H as [-> [-> Hk]]. mine. solve_rb k.
+      + destruct (resolve_const_ref file (cur :: outer) l0 p) as [cv|k0 a0 b0] eqn:Er; cbn [bind] in H.
+        * apply push_then_err in H. cbn [def_loc lfile lline] in H. destruct H as [-> [-> Hk]]. mine. solve_rb k.
+        * inversion H; subst. apply resolve_const_err in Er. destruct Er as [-> [-> [->| ->]]]; mine; exact I.
+    - (* const *)
+      cbn [proc_item] in H.
+      destruct (eval_cvalx file (cur :: outer) l0 v) as [cv|k0 a0 b0] eqn:Ev; cbn [bind] in H.
+      + apply push_then_err in H. cbn [def_loc lfile lline] in H. destruct H as [-> [-> Hk]]. mine. solve_rb k.
+      + inversion H; subst. destruct v as [b|s|p|e]; cbn [eval_cvalx] in Ev; try discriminate.
+        * apply resolve_const_err in Ev. destruct Ev as [-> [-> [->| ->]]]; mine; exact I.
+        * destruct (eval_cexpr file (cur :: outer) l0 e) as [z|k1 a1 b1] eqn:Ee; cbn [bind] in Ev; [discriminate|].
+          inversion Ev; subst. apply eval_cexpr_err in Ee. destruct Ee as [-> [-> [->|[->|[->| ->]]]]]; mine; exact I.
+    - (* alias *)
+      cbn [proc_item] in H.
+      destruct (resolve_tyx file trad (cur :: outer) l0 t) as [tr|k0 a0 b0] eqn:Et; cbn [bind] in H.
+      + assert (Hc : (k = KInvalidAliasedType /\ f = file /\ l = l0 /\ exists p, t = XSingle (SRef p)) \/
+                     push_then cur IKAlias nm (DAlias (mkloc file l0) (fst tr) (snd tr)) = Err k f l).
+        { destruct t as [[| | | |p]|]; try (right; exact H). left. inversion H; subst. repeat split. eauto. }
+        destruct Hc as [[-> [-> [-> [p ->]]]]|Hc].
+        * mine. cbn [rule_broken]. eauto.
+        * apply push_then_err in Hc. cbn [def_loc lfile lline] in Hc. destruct Hc as [-> [-> Hk]]. mine. solve_rb k.
+      + inversion H; subst. apply resolve_tyx_err in Et. destruct Et as [-> [-> Et]]. mine.
+        destruct Et as [[-> [n [E Hn]]]|[[-> [n [E Hn]]]|[[-> [s [c [x ->]]]]|Et]]]; cbn [rule_broken mentions_sty]; eauto 10.
+        destruct Et as [->|[->|[->|[->| ->]]]]; exact I.
+    - (* enum *)
+      destruct b as [| |w|w|p].
+      1,2,5: cbn [proc_item lex_then_grammar] in H; inversion H; subst; mine; exact I.
+      2:{ cbn [proc_item lex_then_grammar] in H. destruct (GenFront.int_cap_raises w) eqn:Ew; inversion H; subst; mine.
+          - cbn [rule_broken mentions_sty]. exists w. split; [reflexivity|]. intros Hw. apply int_cap_bridge in Hw. congruence.
+          - exact I. }
+      rewrite proc_item_enum in H. destruct (GenFront.uint_cap_raises w) eqn:Ew.
+      { inversion H; subst. mine. cbn [rule_broken mentions_sty]. exists w. split; [reflexivity|].
+        intros Hw. apply uint_cap_bridge in Hw. congruence. }
+      destruct (PIS (cur :: outer) (mkframe (FEnum (mkloc file l0) w) []) body) as [fr|k0 a0 b0] eqn:Eb; cbn [bind] in H.
+      + apply push_then_err in H. unfold close_enum in H. cbn [def_loc lfile lline] in H.
+        destruct H as [-> [-> Hk]]. mine. unfold close_enum in Hk. solve_rb k.
+      + inversion H; subst. destruct (body_error _ _ _ _ _ _ IH Eb) as [Hc|[i [it0 [Hin [Hs Hrest]]]]]; [now left|].
+        right. exists it0. split; [eapply sub_enum; eassumption|exact Hrest].
+    - (* message *)
+      rewrite proc_item_msg in H. destruct (x && trad).
+      { inversion H; subst. mine. exact I. }
+      destruct (PIS (cur :: outer) (mkframe (FMsg (mkloc file l0) x) []) body) as [fr|k0 a0 b0] eqn:Eb; cbn [bind] in H.
+      + destruct (close_msg (mkloc file l0) x fr) as [d|k0 a0 b0] eqn:Ec; cbn [bind] in H.
+        * apply close_msg_fields in Ec. subst d. apply push_then_err in H. cbn [def_loc lfile lline] in H.
+          destruct H as [-> [-> Hk]]. mine. solve_rb k.
+        * inversion H; subst. unfold close_msg in Ec.
+          destruct (GenFront.message_size_raises _).
+          { inversion Ec; subst. mine. cbn [rule_broken lfile lline]. eauto 10. }
+          destruct (GenFront.message_max_bytes_raises _ _); [|discriminate].
+          inversion Ec; subst. mine. cbn [rule_broken]. eauto 10.
+      + inversion H; subst. destruct (body_error _ _ _ _ _ _ IH Eb) as [Hc|[i [it0 [Hin [Hs Hrest]]]]]; [now left|].
+        right. exists it0. split; [eapply sub_msg; eassumption|exact Hrest].
+    - (* field *)
+      cbn [proc_item] in H. destruct (is_proto_frame cur).
+      { unfold lex_then_grammar in H. destruct (tyx_head t) as [| |w|w|p] eqn:Eh; try (inversion H; subst; mine; exact I).
+        - destruct (GenFront.uint_cap_raises w) eqn:Ew; inversion H; subst; mine; [|exact I].
+          cbn [rule_broken mentions_sty]. exists w. split; [exact Eh|]. intros Hw. apply uint_cap_bridge in Hw. congruence.
+        - destruct (GenFront.int_cap_raises w) eqn:Ew; inversion H; subst; mine; [|exact I].
+          cbn [rule_broken mentions_sty]. exists w. split; [exact Eh|]. intros Hw. apply int_cap_bridge in Hw. congruence. }
+      destruct (resolve_tyx file trad (cur :: outer) l0 t) as [tr|k0 a0 b0] eqn:Et; cbn [bind] in H.
+      + destruct (GenFront.field_number_raises num) eqn:En.
+        { inversion H; subst. mine. cbn [rule_broken]. do 4 eexists. split; [reflexivity|].
+          intros Hn. apply field_number_bridge in Hn. congruence. }
+        apply push_then_err in H. cbn [def_loc lfile lline] in H. destruct H as [-> [-> Hk]]. mine. solve_rb k.
+      + inversion H; subst. apply resolve_tyx_err in Et. destruct Et as [-> [-> Et]]. mine.
+        destruct Et as [[-> [n [E Hn]]]|[[-> [n [E Hn]]]|[[-> [s [c [xx ->]]]]|Et]]]; cbn [rule_broken mentions_sty]; eauto 12.
+        destruct Et as [->|[->|[->|[->| ->]]]]; exact I.
+    - (* enum member *)
+      cbn [proc_item] in H. destruct (negb (is_enum_frame cur)). { inversion H; subst. mine. exact I. }
+      destruct (GenFront.enum_value_raises v). { inversion H; subst. mine. cbn [rule_broken]. eauto. }
+      apply push_member_err in H. cbn [def_loc lfile lline] in H. destruct H as [-> [-> Hk]].
+      apply member_rule_kind in Hk. mine. solve_rb k.
+  Qed.
+End Cites.
+
+Lemma parse_file_proto fs trad n stk g d :
+  parse_file n fs trad stk g = Ok d -> exists f nm m, d = DProto f nm m.
+Proof.
+  destruct n; [discriminate|]. cbn [parse_file]. destruct (assoc g fs); [|discriminate].
+  destruct (proc_items _ _ _ _ _ _ _ _) as [fr|]; cbn [bind]; [|discriminate].
+  destruct (fk fr) as [[nm|]| |]; try discriminate. intros H; inversion H. eauto.
+Qed.
+
+(* what a rejection cites: either one of the file-level conditions (no line), or the line of a
+   statement of the cited file, and for the numeric rules that statement breaks the bound *)
+Definition cited (fs : files) (k : kind) (f : string) (l : Z) : Prop :=
+  (l = 0 /\ file_level k) \/
+  exists its it it0, assoc f fs = Some its /\ In it its /\ sub it0 it /\ item_line it0 = l /\ rule_broken k it0.
+
+Theorem parse_file_error_cites fs trad : forall n fstack file k f l,
+  parse_file n fs trad fstack file = Err k f l -> cited fs k f l.
+Proof.
+  induction n as [|n IH]; intros fstack file k f l H.
+  - inversion H; subst. left. split; [reflexivity|]. unfold file_level. tauto.
+  - cbn [parse_file] in H. destruct (assoc file fs) as [its|] eqn:Ea.
+    2:{ inversion H; subst. left. split; [reflexivity|]. unfold file_level. tauto. }
+    destruct (proc_items _ _ _ _ _ _ _ its) as [fr|k0 a0 b0] eqn:Ep; cbn [bind] in H.
+    + destruct (fk fr) as [[nm|]| |]; inversion H; subst; left; (split; [reflexivity|]); unfold file_level; tauto.
+    + inversion H; subst.
+      destruct (body_error (parse_file n fs trad) (known fs) trad file (file :: fstack) [] its _ _ _ _
+                  (proj2 (Forall_forall _ _)
+                     (fun i _ => proc_item_error_cites (parse_file n fs trad) (known fs) trad file (file :: fstack)
+                                   (parse_file_proto fs trad n) i)) Ep)
+        as [[[g Hg]|Hl]|[i [it0 [Hin [Hs [-> [-> Hr]]]]]]].
+      * now apply IH in Hg.
+      * now left.
+      * right. exists its, i, it0. now repeat split.
+Qed.
+
+Theorem check_error_cites fs root trad k f l :
+  check fs root trad = Err k f l -> cited fs k f l.
+Proof. apply parse_file_error_cites. Qed.
+
+(* the property TEXT has no clause about division by zero: a schema that meets every listed
+   clause is not accepted *)
+Theorem text_completeness_refuted :
+  exists fs root, ValidText fs root false /\ exists f l, check fs root false = Err KZeroDivCrash f l.
+Proof.
+  exists [("r"%string, [IProto 1 "r"; IConst 2 "A" (CExpr (EDiv (EInt 1) (EInt 0)))]%string)], "r"%string.
+  split.
+  - exists 1%nat. eexists. cbn [file_ok]. do 3 eexists. split; [reflexivity|]. split.
+    + cbn [items_ok]. eexists. split.
+      * cbn [item_ok]. split; [eexists; reflexivity|reflexivity].
+      * eexists. split; [|reflexivity]. cbn [item_ok]. split; [eexists; reflexivity|].
+        eexists. split; [|split; [reflexivity|reflexivity]].
+        apply VOExpr. apply EODiv; [apply EOInt|apply EOInt|now right].
+    + split; reflexivity.
+  - exists "r"%string, 2. vm_compute. reflexivity.
+Qed.
